@@ -53,7 +53,7 @@ WS = [b' ', b'\t', b'  ', b' \t ', b'\t\t']
 def ws(rng): return rng.choice(WS)
 def text_file(rng, lk, names, nmax=8):
     lines = []
-    pool = [b'alice', b'bob', b'x', b'node_7', b'0', b'42', b'#tag'.replace(b'#', b'h'), b'Z']
+    pool = [b'alice', b'bob', b'x', b'node_7', b'0', b'42', b'htag', b'Z', b'#tag', b'#', b'a#b']
     for _ in range(rng.randint(0, 8)):
         r = rng.random()
         if r < 0.15: lines.append(b'#' + rng.choice([b'', b' comment 1 2', b' 3 4 5', b'\t#']))
